@@ -60,6 +60,7 @@ type simServe struct {
 	hosted   bool
 	inRange  bool
 	outcome  string
+	at       time.Time
 	tag      int // request tag (from the row key's registered owner), -1 if none
 	afterEnd bool
 }
@@ -201,7 +202,7 @@ func (s *simConn) serve(call hrpc.Call) {
 	}
 	c.mu.Lock()
 	c.seq++
-	sv := simServe{seq: c.seq, addr: s.addr, conn: s.id, table: string(call.Table()), key: call.Key(), tag: -1,
+	sv := simServe{at: time.Now(), seq: c.seq, addr: s.addr, conn: s.id, table: string(call.Table()), key: call.Key(), tag: -1,
 		afterEnd: c.closedAt != 0}
 	if t, ok := simRows.Load(string(call.Key())); ok {
 		sv.tag = t.(int)
@@ -300,8 +301,8 @@ func (s *simConn) serve(call hrpc.Call) {
 			return
 		}
 	}
-	if len(reg.faults) > 0 && !(reg.faults[0] == "FATALMARK" && sv.kind == "probe") {
-		k := reg.faults[0]
+	if len(reg.faults) > 0 && !((reg.faults[0] == "FATALMARK" || strings.HasPrefix(reg.faults[0], "REQ:")) && sv.kind == "probe") {
+		k := strings.TrimPrefix(reg.faults[0], "REQ:")
 		reg.faults = reg.faults[1:]
 		if k == "connErr" {
 			atomic.StoreInt32(&s.failed, 1)
